@@ -203,11 +203,13 @@ class DataFrameSchemaBackend(PandasSchemaBackend):
             # apply the overrides to a shallow copy so that the component held
             # by the schema is never modified, not even temporarily: another
             # thread may be validating with the same schema.
+            is_index_component = schema_component is schema.index
             schema_component = copy.copy(schema_component)
 
             try:
-                if schema.dtype is not None:
-                    # override column dtype with dataframe dtype
+                if schema.dtype is not None and not is_index_component:
+                    # override column dtype with dataframe dtype: the index
+                    # component keeps the dtype it declares
                     schema_component.dtype = schema.dtype  # type: ignore
 
                 # disable coercion at the schema component level since the
